@@ -685,6 +685,7 @@ func (g *txGen) plainData(ty int) []byte {
 }
 
 func pickS(r *vh.Rng, xs ...string) string { return xs[r.Intn(len(xs))] }
+func pickI(r *vh.Rng, xs ...int) int         { return xs[r.Intn(len(xs))] }
 
 func (g *txGen) column(i int) *gobinlog.ColumnData {
 	r := g.r
@@ -1135,6 +1136,27 @@ func runC20(c *Ctx) {
 			cases = append(cases, txCase{&gobinlog.Transaction{NowPosition: pos, NextPosition: pos, Events: []*gobinlog.StreamEvent{mkEv(n1)}}, "tx/colliding-names/first"},
 				txCase{&gobinlog.Transaction{NowPosition: pos, NextPosition: pos, Events: []*gobinlog.StreamEvent{mkEv(n2)}}, "tx/colliding-names/second"})
 		}
+	}
+	// cells beyond 64 KiB (MEDIUMTEXT / LONGTEXT / JSON columns) of valid UTF-8 whose multi-byte characters straddle the
+	// 2^16 and 2^17 byte offsets: rendered verbatim like any other text
+	for i := 0; i < c.N(4, 40); i++ {
+		multi := pickS(r, "é", "日本語", "😀", "ü日😀", "\u2028x")
+		var b []byte
+		for _, edge := range []int{1 << 16, 1 << 17} {
+			for len(b) < edge-1-r.Intn(4) {
+				b = append(b, "abcdefghij \"\\/<>&\n"[len(b)%18])
+			}
+			for k := 0; k < 12; k++ {
+				b = append(b, multi...)
+			}
+		}
+		b = append(b, "tail"...)
+		pos := gobinlog.Position{Filename: "bin.000009", Offset: int64(1000 + i)}
+		col := &gobinlog.ColumnData{Filed: "doc", Type: gobinlog.ColumnType(pickI(r, 252, 251, 250, 245, 253)), Data: b}
+		small := &gobinlog.ColumnData{Filed: "id", Type: 3, Data: []byte("7")}
+		cases = append(cases, txCase{&gobinlog.Transaction{NowPosition: pos, NextPosition: pos, Timestamp: 1407805592, Events: []*gobinlog.StreamEvent{
+			{Type: gobinlog.StatementInsert, Timestamp: 1407805592, Table: gobinlog.NewMysqlTableName("shop", "docs"),
+				RowValues: []*gobinlog.RowData{{Columns: []*gobinlog.ColumnData{small, col}}}}}}, "tx/large-cell/multibyte-at-64K-and-128K"})
 	}
 	cases = append(cases, txCase{allTypesTx(r, -3, 30), "tx/alltypes/low"}, txCase{allTypesTx(r, 240, 260), "tx/alltypes/high"},
 		txCase{&gobinlog.Transaction{}, "tx/zero-value"})
